@@ -416,6 +416,20 @@ impl Prop for C16 {
             }
           }
         }
+        // births around the civil New Year and around Lichun (where the sexagenary year differs from the civil and lunar years)
+        for (j, y) in ys.iter().enumerate() {
+          if j % nshards != shard || *y < 3 {
+            continue;
+          }
+          for (m, d) in [(12i64, 27i64), (12, 30), (12, 31), (1, 1), (1, 3), (2, 2), (2, 4), (2, 6)] {
+            let yy = if m == 12 { *y - 1 } else { *y };
+            if let Some(ix) = c.index(yy, m, d) {
+              for g in 0..2 {
+                run_case(env, out, "limit", &Case::ints(&[ix as i64, 43200, g]), &ev);
+              }
+            }
+          }
+        }
         if shard == 0 {
           // witnesses of the known findings (always re-observed)
           for (y, m, d, s) in [(24i64, 2i64, 6i64, 15479i64), (24, 1, 30, 0), (1575, 4, 4, 11945), (1574, 7, 4, 64210)] {
